@@ -30,6 +30,7 @@ def do_step(src, core, sit, steps=STEPS):
                    'stopping_jobs': False,
                    'instance_states': {i: v.name for i, v in view.items()}}
         # a real publication obeys the invariant of its publisher (I3)
+        from symx import sor
         src.assume(FC.declares_running_master(new_master, view, ids))
         core.fsm.on_state_event(status, payload)
         sit['peers'][k - 1] = {'state': new_state, 'master': new_master, 'view': view}
@@ -92,7 +93,8 @@ def check_invariant(src, core, sit):
     from supvisors.ttypes import SupvisorsInstanceStates as S, SupvisorsStates as F
     step = sit.get('step')
     m = src.conc(core.state_modes.master_identifier)
-    if m:
+    user = src.conc(sit['has_user'])
+    if m and not user:
         seen = src.conc(core.context.instances[m].state)
         src.check('invariant-I1-local-master-is-seen-running', seen == S.RUNNING, sig=f'{step}:master-seen-{seen.name}',
                   master=m)
@@ -100,6 +102,8 @@ def check_invariant(src, core, sit):
         if name == 'send_state_event':
             p = args[0]
             pm = src.conc(p['master_identifier'])
+            if user:
+                continue
             src.check('invariant-I3-published-master-is-published-running',
                       not pm or src.conc(p['instance_states'].get(pm)) == 'RUNNING', sig=f'{step}', master=pm)
     for i in sit['ids'][1:]:
@@ -161,6 +165,8 @@ BOUNDS = {'quick': {'instances': 2, 'steps': 1, 'entry_points': STEPS},
           'thorough': {'instances': '2 (full peer views) and 3 (3-valued peer views)', 'steps': 1}}
 OUTSIDE = ['N > 3', 'discovery mode', 'sequences of more than one step from the symbolic situation (the situation is '
            'the induction hypothesis; histories are covered by the cluster runs)']
-ASSUMPTIONS = ['pre-state invariant I1/I2 of harness/fsm_common.py',
+ASSUMPTIONS = ['pre-state invariant I1-I3 of harness/fsm_common.py, re-asserted after every step (induction closed) except I1 '
+               'and I3 under the USER synchro option, where accept_master() makes them non-inductive: for USER '
+               'configurations the claim is conditional on them',
                'pending jobs are real command objects planted in Starter/Stopper.current_jobs',
                'uptime in {5, 20, 1000} s against SYNCHRO_TIMEOUT_MIN=15 and synchro_timeout=30']
